@@ -337,7 +337,7 @@ func runBFS(sysName string, n int, maxStates int, args map[string]int) {
 	ids := map[string]int{}
 	var queue []*mpexec.State
 	d0 := s.Dump(init)
-	ids[d0] = 0
+	ids[tlaval.MustCanon(d0)] = 0
 	queue = append(queue, init)
 	w := func(m map[string]interface{}) {
 		b, _ := json.Marshal(m)
@@ -361,14 +361,15 @@ func runBFS(sysName string, n int, maxStates int, args map[string]int) {
 					continue
 				}
 				d := s.Dump(sc.Next)
-				id, ok := ids[d]
+				key := tlaval.MustCanon(d) // equal TLA+ values may print differently (insertion order of sets/functions)
+				id, ok := ids[key]
 				if !ok {
 					if len(queue) >= maxStates {
 						complete = false
 						continue
 					}
 					id = len(queue)
-					ids[d] = id
+					ids[key] = id
 					queue = append(queue, sc.Next)
 				}
 				if !edges[[2]int{from, id}] {
